@@ -23,7 +23,7 @@ def to_kelvin(value: Celsius) -> float:
 
 
 def to_kelvin_quantity(value: Celsius) -> Quantity:
-    return Quantity(to_kelvin(value) * units.kelvin)
+    return Quantity(to_kelvin(value), dimension=units.temperature)
 
 
 # Here we allow negative Kelvin temperatures, but it does not matter for us. It's
